@@ -66,6 +66,12 @@ type FaceSpec struct {
 	// CCF = "consumer controlled forwarding" (NDNLP local fields) enabled on the face: only then
 	// does the link service copy NextHopFaceId from the LP header into the packet.
 	CCF bool
+	// IFI = "incoming face indication", LCP = "local cache policy": the two other NDNLP local-fields
+	// options of the face's link service (faces/create and faces/update with the LocalFields flag
+	// switch all three on; the internal face has CCF+IFI). Only the REAL link service
+	// (Config.RealLinkService, Enqueue) and the CachePolicy copy of the copied arrival path read them.
+	IFI bool
+	LCP bool
 }
 
 // StdFaces is the face set of DESIGN C01: two local, three non-local, one ad-hoc.
@@ -437,6 +443,17 @@ type LP struct {
 	PitToken       []byte
 	NextHopFaceID  *uint64
 	CongestionMark *uint64
+	// further header fields a PEER may put on a frame it sends (all optional, zero = absent)
+	IncomingFaceID *uint64 // IncomingFaceId: meant for frames the forwarder SENDS to local applications
+	CachePolicy    *uint64 // CachePolicy / CachePolicyType
+	NonDiscovery   bool
+	TxSequence     *uint64
+	Ack            *uint64
+}
+
+// hasExtra reports whether one of the header fields beyond token / next hop / mark is present.
+func (lp LP) hasExtra() bool {
+	return lp.IncomingFaceID != nil || lp.CachePolicy != nil || lp.NonDiscovery || lp.TxSequence != nil || lp.Ack != nil
 }
 
 // Inject does what NDNLPLinkService.handleIncomingFrame does with a frame whose fragment is
@@ -474,6 +491,9 @@ func (s *Sim) inject(faceID uint64, wire []byte, lp LP) []Send {
 	pkt.CongestionMark = lp.CongestionMark
 	if f.spec.CCF && lp.NextHopFaceID != nil {
 		pkt.NextHopFaceID = lp.NextHopFaceID
+	}
+	if f.spec.LCP && lp.CachePolicy != nil {
+		pkt.CachePolicy = utils.IdPtr(*lp.CachePolicy)
 	}
 	if len(lp.PitToken) > 0 {
 		pkt.PitToken = make([]byte, len(lp.PitToken))
@@ -528,6 +548,8 @@ func (s *Sim) link(f *Face) *face.NDNLPLinkService {
 	if l == nil {
 		o := face.MakeNDNLPLinkServiceOptions()
 		o.IsConsumerControlledForwardingEnabled = f.spec.CCF
+		o.IsIncomingFaceIndicationEnabled = f.spec.IFI
+		o.IsLocalCachePolicyEnabled = f.spec.LCP
 		l, _ = face.VerifNewMemLinkService(f.id, f.spec.Scope, f.spec.Link, defn.MaxNDNPacketSize, o)
 		s.links[f.id] = l
 	}
@@ -538,12 +560,16 @@ func (s *Sim) link(f *Face) *face.NDNLPLinkService {
 // field is present, otherwise an NDNLPv2 LpPacket (encoded with the real spec_2022 encoder)
 // carrying the packet as its only fragment.
 func EncodeFrame(wire []byte, lp LP) []byte {
-	if len(lp.PitToken) == 0 && lp.NextHopFaceID == nil && lp.CongestionMark == nil {
+	if len(lp.PitToken) == 0 && lp.NextHopFaceID == nil && lp.CongestionMark == nil && !lp.hasExtra() {
 		return wire
 	}
 	frag := &spec.LpPacket{Fragment: enc.Wire{wire}, NextHopFaceId: lp.NextHopFaceID, CongestionMark: lp.CongestionMark}
 	if len(lp.PitToken) > 0 {
 		frag.PitToken = lp.PitToken
+	}
+	frag.IncomingFaceId, frag.NonDiscovery, frag.TxSequence, frag.Ack = lp.IncomingFaceID, lp.NonDiscovery, lp.TxSequence, lp.Ack
+	if lp.CachePolicy != nil {
+		frag.CachePolicy = &spec.CachePolicy{CachePolicyType: *lp.CachePolicy}
 	}
 	pkt := &spec.Packet{LpPacket: frag}
 	e := spec.PacketEncoder{}
